@@ -117,6 +117,7 @@ func runN2N(tier string, shard int) partResult {
 				outcome := ""
 				for bi, body := range bodies {
 					delivered := false
+					ncWaits := 0
 					for attempt := 0; attempt < 2*len(vs)+3 && !delivered; attempt++ {
 						ch := make(chan string, 2)
 						for _, s := range servers {
@@ -179,6 +180,13 @@ func runN2N(tier string, shard int) partResult {
 							// answers "not connected" until then
 							if err != nil && strings.Contains(err.Error(), "not connected") {
 								time.Sleep(110 * time.Millisecond)
+								// (such an offer consumed no verdict: it does not count towards the
+								// number of offers - up to 30 s of them, so that a loaded machine on
+								// which the tear-down takes longer is not taken for a tool that gives up)
+								if ncWaits < 300 {
+									ncWaits++
+									attempt--
+								}
 							}
 						case "NONE":
 							res.Found = append(res.Found, vx.Found{Sig: "C20 nsq_to_nsq neither finished nor requeued a message :: nsq_to_nsq " + modeName,
